@@ -91,7 +91,11 @@ class VirtualPool(cf.Executor):
         i = run[c]
         fn, pargs, fut = self.tasks[i]
         args, kwargs = pickle.loads(pargs)
-        fut.set_running_or_notify_cancel()
+        if not fut.set_running_or_notify_cancel():
+            # cancelled (Executor.map cancels pending tasks after an error)
+            self.done.add(i)
+            self.sched.orders[self.call].append(i)
+            return
         try:
             res = pickle.loads(pickle.dumps(fn(*args, **kwargs)))
         except BaseException as e:  # noqa
